@@ -444,13 +444,23 @@ def Policy.step (p : Policy) (st : LoopState) (t : Token) : Option (LoopState ×
           else
           some ({ st with skipClosingTag := true,
                           closingTagToSkipStack := t.data :: st.closingTagToSkipStack }, p.space)
-        else if !st.skipElementContent then some (st, [⟨({ t with attrs := attrs } : Token).render, true⟩])
-        else some (st, [])
+        else
+          -- a kept element nested in a dropped element of the same name leaves a marker
+          let st := if st.skipClosingTag && !isVoidElement t.data &&
+                        st.closingTagToSkipStack.contains t.data then
+              { st with closingTagToSkipStack := (47 :: t.data) :: st.closingTagToSkipStack }
+            else st
+          if !st.skipElementContent then some (st, [⟨({ t with attrs := attrs } : Token).render, true⟩])
+          else some (st, [])
   | .end_ =>
     let st := if st.mostRecentlyStartedToken == t.data then { st with mostRecentlyStartedToken := [] } else st
     if isScriptOrStyle t.data && !p.allowUnsafe then some (st, [])
     else if st.skipClosingTag && st.closingTagToSkipStack.isEmpty then none
-    else if st.skipClosingTag && st.closingTagToSkipStack.head? == some t.data then
+    else
+    -- the marker of a kept element: only forget it, then carry on as for any end tag
+    let isMarker := st.skipClosingTag && st.closingTagToSkipStack.head? == some (47 :: t.data)
+    let st := if isMarker then { st with closingTagToSkipStack := st.closingTagToSkipStack.tail } else st
+    if !isMarker && st.skipClosingTag && st.closingTagToSkipStack.head? == some t.data then
       let stack := st.closingTagToSkipStack.tail
       some ({ st with closingTagToSkipStack := stack,
                       skipClosingTag := if stack.isEmpty then false else st.skipClosingTag }, p.space)
